@@ -353,8 +353,19 @@ func (tr *tapReader) Read(p []byte) (int, error) {
 	return n, err
 }
 
+// SetServer swaps the model behind the listener (new connections use it); open connections are closed.
+func (t *TCP) SetServer(s *Server) {
+	t.KillConns()
+	t.mu.Lock()
+	t.Srv = s
+	t.mu.Unlock()
+}
+
 func (t *TCP) serve(c net.Conn) {
-	ss := t.Srv.NewSession()
+	t.mu.Lock()
+	srv := t.Srv
+	t.mu.Unlock()
+	ss := srv.NewSession()
 	t.mu.Lock()
 	t.conns[ss.ID] = c
 	t.mu.Unlock()
@@ -410,6 +421,9 @@ var NoReply = noReply{}
 func (t *TCP) KillConns() {
 	t.mu.Lock()
 	for id, c := range t.conns {
+		if tc, ok := c.(*net.TCPConn); ok {
+			tc.SetLinger(0) // reset instead of FIN: no TIME_WAIT entries pile up over tens of thousands of cases
+		}
 		c.Close()
 		delete(t.conns, id)
 	}
